@@ -225,12 +225,20 @@ func fmtBeta(b types.RecentBlocks) string {
 	return sb.String()
 }
 
+var curH = types.MaxBlocksHistory
+
 func run(input string) string {
 	f := strings.Fields(input)
 	H, C, nb := h.I(f[0]), h.I(f[1]), h.I(f[2])
 	types.SetTinyMode()
 	types.CoresCount = C
-	recent_history.VerifSetMaxBlocksHistory(H)
+	// the package's capacity is only touched when the case asks for another one than the package has: with the real H = 8
+	// no add-only export is needed (the setter wraps an unexported package variable; if a rewrite renames it the stub panics
+	// VERIF-UNAVAILABLE and only the cases with other capacities are skipped, see aux_kinds in check/props/C25.py)
+	if H != curH {
+		recent_history.VerifSetMaxBlocksHistory(H)
+		curH = H
+	}
 	pos := 3
 	if f[pos] != "H" {
 		panic("verifh: expected H")
